@@ -91,6 +91,45 @@ theorem nnls_kkt_optimal (A : Matrix (Fin m) (Fin n) ℝ) (b : Fin m → ℝ) (x
     linarith
   linarith
 
+/-- C01, variable projection, from exactly what is discharged on the code for every m, n (PyVC-U obligations
+O0-O3) and the contracts of the LAPACK routines:
+* `w = Qᵀ b`  (first `dormqr`, O1a),
+* row by row, either the projected vector was zeroed and `clp` solves that row of the triangular system
+  (rows `< n`: O2 + `dtrtrs` contract), or the row of `[R;0]` is zero and the entry of `Qᵀ b` was kept (rows `≥ n`: O2),
+* `residual = Q temp` (second `dormqr`, O3), `Q` orthogonal (`dgeqrf` contract).
+Conclusion: the residual that enters the fit is `b − A clp`, it is orthogonal to the columns of `A = Q [R;0]`, and
+`clp` minimises `‖b − A x‖`. -/
+theorem vp_end_to_end (Q : Matrix (Fin m) (Fin m) ℝ) (R' : Matrix (Fin m) (Fin n) ℝ)
+    (b w temp residual : Fin m → ℝ) (clp : Fin n → ℝ)
+    (hQ1 : Qᵀ * Q = 1) (hQ2 : Q * Qᵀ = 1) (hw : w = Qᵀ *ᵥ b)
+    (hrow : ∀ k, (temp k = 0 ∧ (R' *ᵥ clp) k = w k) ∨ ((∀ j, R' k j = 0) ∧ temp k = w k))
+    (hres : residual = Q *ᵥ temp) :
+    residual = b - (Q * R') *ᵥ clp ∧ (Q * R')ᵀ *ᵥ residual = 0 ∧
+      ∀ x, residual ⬝ᵥ residual ≤ (b - (Q * R') *ᵥ x) ⬝ᵥ (b - (Q * R') *ᵥ x) := by
+  have htemp : temp = w - R' *ᵥ clp := by
+    funext k
+    rcases hrow k with ⟨h0, hk⟩ | ⟨hz, hk⟩
+    · simp [Pi.sub_apply, h0, hk]
+    · have : (R' *ᵥ clp) k = 0 := by
+        simp [Matrix.mulVec, dotProduct, hz]
+      simp [Pi.sub_apply, hk, this]
+  have h5 : R'ᵀ *ᵥ temp = 0 := by
+    funext j
+    simp only [Matrix.mulVec, dotProduct, Matrix.transpose_apply, Pi.zero_apply]
+    apply Finset.sum_eq_zero
+    intro k _
+    rcases hrow k with ⟨h0, _⟩ | ⟨hz, _⟩
+    · rw [h0, mul_zero]
+    · rw [hz j, zero_mul]
+  have hQw : Q *ᵥ w = b := by
+    rw [hw, Matrix.mulVec_mulVec, hQ2, Matrix.one_mulVec]
+  have hid : b - (Q * R') *ᵥ clp = Q *ᵥ temp := by
+    rw [htemp, Matrix.mulVec_sub, hQw, Matrix.mulVec_mulVec]
+  have horth := vp_orthogonal_of_q_coordinates Q R' temp b clp hQ1 h5 hid
+  refine ⟨by rw [hres, hid], by rw [hres, ← hid]; exact horth, fun x => ?_⟩
+  rw [hres, ← hid]
+  exact vp_optimal (Q * R') b clp horth x
+
 /-- C14: data generated without noise, `b = A c₀`, are reproduced exactly by a least-squares solution
 (orthogonal residual): the residual vanishes, and at full column rank the estimated clp is `c₀`. -/
 theorem exact_data_recovered (A : Matrix (Fin m) (Fin n) ℝ) (b : Fin m → ℝ) (c₀ clp : Fin n → ℝ)
@@ -108,5 +147,6 @@ theorem exact_data_recovered (A : Matrix (Fin m) (Fin n) ℝ) (b : Fin m → ℝ
 end PyVC
 
 #print axioms PyVC.vp_minimises
+#print axioms PyVC.vp_end_to_end
 #print axioms PyVC.nnls_kkt_optimal
 #print axioms PyVC.exact_data_recovered
